@@ -39,6 +39,10 @@ def fmt_float(x, how):
         return "%.16e" % x
     if how == "EXP":
         return "%.16E" % x
+    if how == "exp3":
+        # sign-mantissa-'e'-sign-exponent with a three-digit exponent (the number form shown in the STL description: -2.648000e-002)
+        m, e = ("%.16e" % x).split("e")
+        return "%se%s%03d" % (m, e[0], int(e[1:]))
     if how == "intlike":
         if x == int(x) and abs(x) < 1e15 and not (x == 0 and struct.pack(">d", x)[0] & 0x80):
             return "%d" % int(x)
